@@ -705,17 +705,80 @@ def model_blocks(n, bs, bl):
     return out
 
 
+def run_piped(argv, chunks, pause_s, env, cwd, timeout=120):
+    """Run argv with standard input on a pipe that receives `chunks` with a pause before each further chunk.  -> (rc, stdout, stderr,
+    marks) where marks[i] = number of output bytes that had arrived when chunk i+1 was about to be written (after the pause)."""
+    import subprocess
+    import threading
+    import time
+    p = subprocess.Popen(argv, stdin=subprocess.PIPE, stdout=subprocess.PIPE, stderr=subprocess.PIPE, env=env, cwd=cwd)
+    out, err, marks = bytearray(), bytearray(), []
+
+    def reader(f, buf):
+        while True:
+            b = f.read1(65536) if hasattr(f, "read1") else f.read(65536)
+            if not b:
+                break
+            buf.extend(b)
+
+    ro = threading.Thread(target=reader, args=(p.stdout, out), daemon=True)
+    re_ = threading.Thread(target=reader, args=(p.stderr, err), daemon=True)
+    ro.start()
+    re_.start()
+
+    def feeder():
+        try:
+            for i, c in enumerate(chunks):
+                if i:
+                    time.sleep(pause_s)
+                    marks.append(len(out))
+                p.stdin.write(c)
+                p.stdin.flush()
+        except (BrokenPipeError, OSError):
+            pass
+        finally:
+            try:
+                p.stdin.close()
+            except OSError:
+                pass
+
+    fe = threading.Thread(target=feeder, daemon=True)
+    fe.start()
+    try:
+        rc = p.wait(timeout=timeout)
+    except subprocess.TimeoutExpired:
+        p.kill()
+        p.wait()
+        return None, bytes(out), bytes(err), marks
+    fe.join(5)
+    ro.join(5)
+    re_.join(5)
+    return rc, bytes(out), bytes(err), marks
+
+
 def oracle_rt(scn, S, d):
     plain = plain_bytes(scn["plain"])
     p = os.path.join(d, "orig")
     with open(p, "wb") as f:
         f.write(plain)
     cargs = list(scn["cargs"])
-    rc, comp, err = base.run_cmd([base.tool("xz"), "-c"] + cargs + [p], env=base.clean_env(), cwd=d)
+    fl = scn.get("flush")
+    marks, cuts = [], []
+    if fl:
+        # input through a pipe with pauses, --flush-timeout shorter or longer than the pauses: short reads, LZMA_SYNC_FLUSH in the middle of
+        # Blocks, --block-size / --block-list accounting across partial buffers
+        cargs = ["--flush-timeout=%d" % fl["ms"]] + cargs
+        cuts = sorted({len(plain) * pm // 1000 for pm in fl["cuts"]} - {0, len(plain)})
+        edges = [0] + cuts + [len(plain)]
+        chunks = [plain[a:b2] for a, b2 in zip(edges, edges[1:])]
+        rc, comp, err, marks = run_piped([base.tool("xz"), "-c"] + cargs, chunks, fl["pause"] / 1000.0, base.clean_env(), d)
+        S.count("rt:piped-input-with-flush-timeout")
+    else:
+        rc, comp, err = base.run_cmd([base.tool("xz"), "-c"] + cargs + [p], env=base.clean_env(), cwd=d)
     if rc is None:
         S.inconclusive_count("timeout-compress")
         return
-    ctx = f"xz -c {' '.join(cargs)} on {short(plain, 12)}: rc={rc} stderr={err[-300:]!r}"
+    ctx = f"xz -c {' '.join(cargs)} on {short(plain, 12)}{' fed in pieces ending at ' + str(cuts) if fl else ''}: rc={rc} stderr={err[-300:]!r}"
 
     def viol(sig, why):
         if S.known(sig):
@@ -747,6 +810,15 @@ def oracle_rt(scn, S, d):
     if j["ret"] != LZMA_STREAM_END or j["bytes"] != plain:
         if viol("C18:roundtrip", f"library decode of the compressed file gives {j['ret_name']} {short(j['bytes'])}"):
             return
+    if fl and marks and fl["pause"] >= 4 * fl["ms"] + 40:
+        # counted, not judged (wall-clock dependent): when the pause was much longer than the timeout, did what had arrived by the end of the
+        # pause decode to everything fed until then?
+        for k, (cut, m) in enumerate(zip(cuts, marks)):
+            pp = os.path.join(d, "prefix%d.xz" % k)
+            with open(pp, "wb") as f:
+                f.write(comp[:m])
+            jj = libdec(d, "stream", "concatenated", pp, {})
+            S.count("rt:after-a-long-pause-the-output-so-far-decodes-to-all-input-so-far:" + ("yes" if jj["bytes"] == plain[:cut] else "no"))
     if scn["fmt"] == "xz" and scn.get("model") is not None:
         want = model_blocks(len(plain), scn["model"]["bs"], scn["model"]["bl"])
         got = xz_regions(comp)["usizes"]
@@ -969,7 +1041,11 @@ def rt_strategy(draw):
                 bl.append(0)
             args.append("--block-list=" + ",".join(items))
         model = {"bs": bs, "bl": bl}
-    return {"part": "rt", "fmt": fmt, "plain": plain, "cargs": args, "dT": draw(st.sampled_from([None, 1, 4, 0])), "model": model}
+    scn = {"part": "rt", "fmt": fmt, "plain": plain, "cargs": args, "dT": draw(st.sampled_from([None, 1, 4, 0])), "model": model}
+    if fmt == "xz" and draw(st.sampled_from([False, False, True])):
+        scn["flush"] = {"ms": draw(st.sampled_from([1, 5, 20, 200])), "pause": draw(st.sampled_from([2, 30, 90, 150])),
+                        "cuts": draw(st.lists(st.sampled_from([1, 250, 333, 500, 667, 900, 999]), min_size=1, max_size=3, unique=True))}
+    return scn
 
 
 @st.composite
